@@ -238,7 +238,7 @@ Definition g_delete_unused : guard := fun P s =>
   | SDef n _ => mem n P
   | SClass n _ => mem n P
   | SVar _ => true
-  | SMDef c b f _ => mem f P || mem (dotted c f) P || b
+  | SMDef c b f _ => mem f P || mem (dotted c f) P || b || (mem c P && is_magic f)   (* last: F08-6 *)
   | SMClass _ _ n => mem n P
   | SMVar _ _ _ => true
   end.
